@@ -226,6 +226,10 @@ BFull(k) == LET w == W(k) IN
         MaxOf(k), Sub(MaxOf(k), One), PQ(w), Neg(PQ(w))}
   ELSE {Zero, One, FromInt(2), FromInt(3), FromInt(7), MaxOf(k), Sub(MaxOf(k), One), PQ(w),
         Sub(PQ(w), One), PH(w), Add(PH(w), One), Sub(PH(w), One)}
+\* a medium set for the operators whose result does not depend on carries across the whole width
+BMid(k) == LET w == W(k) IN
+  IF Signed(k) THEN {Zero, One, FromInt(-1), FromInt(3), FromInt(7), MinOf(k), Add(MinOf(k), One), MaxOf(k), PQ(w)}
+  ELSE {Zero, One, FromInt(3), FromInt(7), MaxOf(k), Sub(MaxOf(k), One), PQ(w), PH(w), Add(PH(w), One)}
 BQuick(k) == LET w == W(k) IN
   IF Signed(k) THEN {Zero, FromInt(-1), FromInt(3), MinOf(k), MaxOf(k)}
   ELSE {Zero, One, MaxOf(k), PH(w)}
